@@ -157,8 +157,12 @@ func c08Make(w *W, r *rand.Rand, k int) *c08Case {
 		if r.Intn(2) == 0 {
 			a, b := bigIntList(r, na), bigIntList(r, nb)
 			extra = Op("overlap", TBool, ConstRef("KBIGA", a), ConstRef("KBIGB", b))
-			if r.Intn(3) == 0 {
+			switch r.Intn(4) {
+			case 0:
 				extra = Op("in", TBool, Lit(a[len(a)/2]), ConstRef("KBIGA", a))
+			case 1:
+				// membership of a variable in a named list constant (not foldable)
+				extra = Op("in", TBool, Var("i0", TInt), ConstRef("KBIGA", a))
 			}
 		} else {
 			a, b := bigStrList(r, na), bigStrList(r, nb)
@@ -218,7 +222,16 @@ func c08Make(w *W, r *rand.Rand, k int) *c08Case {
 		// a source that does not compile: the config must stay untouched as well
 		src = mutateSource(r, src, w)
 	}
-	c := &c08Case{cc: mk(), mk: mk, src: src, tree: tree, binds: genBindings(r, tree, 3, 0.05), nilMaps: nilMaps}
+	binds := genBindings(r, tree, 3, 0.05)
+	if l, ok := cfg.Consts["KBIGA"].([]int64); ok && len(l) > 0 {
+		// probes that are members of the list constant (as first compiled)
+		for i := range binds {
+			if _, uses := binds[i].Vals["i0"]; uses && i != 1 {
+				binds[i].Vals["i0"] = l[r.Intn(len(l))]
+			}
+		}
+	}
+	c := &c08Case{cc: mk(), mk: mk, src: src, tree: tree, binds: binds, nilMaps: nilMaps}
 	c.desc = fmt.Sprintf("%s nil-maps=%v", cfg, nilMaps)
 	if hasDirective || (!nilMaps && len(cfg.Costs) > 0 && len(cfg.VarNames) > 0) {
 		w.Nontrivial(c.desc, src)
@@ -406,6 +419,22 @@ func c08Edit(cc *eval.Config, seed int64) {
 		o := []eval.CompileOption{eval.ConstantFolding, eval.ReduceNesting, eval.FastEvaluation, eval.Reordering}[r.Intn(4)]
 		cur, ok := cc.CompileOptions[o]
 		cc.CompileOptions[o] = ok && !cur
+	}
+	// list constants refilled in place (same slice, same length, other contents)
+	for _, n := range []string{"KBIGA", "KBIGB", "KBIGC", "KBIGD", "KIL", "KSL"} {
+		if r.Intn(2) != 0 {
+			continue
+		}
+		switch l := cc.ConstantMap[n].(type) {
+		case []int64:
+			for i := range l {
+				l[i] += 1 + int64(i%2)
+			}
+		case []string:
+			for i := range l {
+				l[i] += "'"
+			}
+		}
 	}
 	if v, ok := cc.ConstantMap["KI"]; ok && r.Intn(2) == 0 {
 		if x, isInt := v.(int64); isInt {
